@@ -55,7 +55,7 @@ def sh(cmd, cwd=None, env=None, timeout=None, check=True, stdin=None):
 # ----------------------------------------------------------------------------- hashing / cache
 
 def _hash_tree(h, root, subdirs, skip_dirs=("target", ".git", ".work", ".cache", "evidence", "replays",
-                                            "__pycache__", "states", "seeded")):
+                                            "__pycache__", "states", "seeded", "gen")):
     for sub in subdirs:
         top = os.path.join(root, sub)
         if os.path.isfile(top):
